@@ -1,3 +1,4 @@
+import Beetswap.Proofs.ConnHandler
 import Beetswap.Proofs.CidLayer
 /-!
 # C16 — One bad message costs only its own stream
@@ -46,5 +47,123 @@ theorem earlier_stay_applied (S : Nat) (H : Hasher) (parse : List Nat → Option
     (hb : processMessage S H parse bad = ProcRes.fatal) :
     deliver S H parse (good ++ bad :: later) = deliver S H parse good :=
   Proofs.CidLayer.earlier_stay_applied S H parse good bad later hg hb
+
+
+/-! ### The inbound substreams of a connection (`Model/Inbound`, `Model/ConnHandler`)
+
+`IncomingStream::poll_next` and the `SelectAll` of a connection's inbound substreams, with every
+possible answer of the framed readers and the processing futures: a substream ends only for a
+reason of its own, the other substreams and both halves of the handler are untouched, the
+connection stays up. -/
+section
+open Beetswap.Inbound Beetswap.Proofs.Inbound
+
+/-- A substream ends only for a reason of its own: a decoding / transport error, the end of the
+stream, or a message with a fatal error. -/
+theorem ended_reason (s : S) (reads : List ReadAns) (procs : List ProcAns)
+    (h : (poll s reads procs).2 = .ended) :
+    ReadAns.err ∈ reads ∨ ReadAns.eof ∈ reads ∨ ProcAns.fatal ∈ procs :=
+  Proofs.Inbound.ended_reason s reads procs h
+
+/-- A message with a fatal error ends its substream … -/
+theorem fatal_ends_stream (m : Nat) (reads : List ReadAns) (procs : List ProcAns) :
+    (poll { proc := some m } reads (.fatal :: procs)).2 = .ended :=
+  Proofs.Inbound.fatal_ends_stream m reads procs
+
+/-- … and so does a frame that cannot be decoded. -/
+theorem decode_error_ends_stream (reads : List ReadAns) (procs : List ProcAns) :
+    (poll { proc := none } (.err :: reads) procs).2 = .ended :=
+  Proofs.Inbound.decode_error_ends_stream reads procs
+
+/-- A message that is empty after its skippable parts were dropped is not forwarded and does not
+end the substream: reading goes on. -/
+theorem empty_message_keeps_stream (m : Nat) (reads : List ReadAns) (procs : List ProcAns) :
+    poll { proc := some m } reads (.empty :: procs) =
+      ((pollNext (reads.length + procs.length + 1) { proc := none } reads procs).1,
+       (pollNext (reads.length + procs.length + 1) { proc := none } reads procs).2.1) :=
+  Proofs.Inbound.empty_message_keeps_stream m reads procs
+
+theorem empty_then_next_message (m m' : Nat) :
+    poll { proc := some m } [.msg m'] [.empty, .fwd] = ({ proc := none }, .item m') :=
+  Proofs.Inbound.empty_then_next_message m m'
+
+/-- Substreams that are not polled are untouched. -/
+theorem selectPoll_untouched (ss : Streams) (env : Nat → Env) (order : List Nat) (sid : Nat)
+    (h : sid ∉ order) : (selectPoll ss env order).1.lookup sid = ss.lookup sid :=
+  Proofs.Inbound.selectPoll_untouched ss env order sid h
+
+/-- C16 at the connection level: whatever the other substreams of the connection receive — errors,
+fatal messages, ends — a substream is either untouched, or advanced by its own answers only; it is
+dropped only if *its own* `poll_next` ended. -/
+theorem selectPoll_own_answers_only (ss : Streams) (hnd : Nodup ss) (env : Nat → Env)
+    (order : List Nat) (hord : order.Nodup) (sid : Nat) (s : S) (hs : ss.lookup sid = some s) :
+    (selectPoll ss env order).1.lookup sid = some s ∨
+    ((poll s (env sid).reads (env sid).procs).2 ≠ .ended ∧
+      (selectPoll ss env order).1.lookup sid = some (poll s (env sid).reads (env sid).procs).1) ∨
+    ((poll s (env sid).reads (env sid).procs).2 = .ended ∧
+      (selectPoll ss env order).1.lookup sid = none) :=
+  Proofs.Inbound.selectPoll_own_answers_only ss hnd env order hord sid s hs
+
+/-- … in particular a substream disappears only because of its own error / end / fatal message. -/
+theorem dropped_only_by_own_fault (ss : Streams) (hnd : Nodup ss) (env : Nat → Env)
+    (order : List Nat) (hord : order.Nodup) (sid : Nat) (s : S) (hs : ss.lookup sid = some s)
+    (hgone : (selectPoll ss env order).1.lookup sid = none) :
+    ReadAns.err ∈ (env sid).reads ∨ ReadAns.eof ∈ (env sid).reads ∨ ProcAns.fatal ∈ (env sid).procs :=
+  Proofs.Inbound.dropped_only_by_own_fault ss hnd env order hord sid s hs hgone
+
+/-- A dropped substream never forwards anything again. -/
+theorem gone_is_silent (ss : Streams) (env : Nat → Env) (order : List Nat) (sid m : Nat)
+    (hgone : ss.lookup sid = none) : (selectPoll ss env order).2 ≠ some (sid, m) :=
+  Proofs.Inbound.gone_is_silent ss env order sid m hgone
+
+end
+
+section
+open Beetswap.Proto Beetswap.ConnHandler Beetswap.Proofs.ConnHandler
+
+/-- An inbound substream that ends — bad frame, fatal message, end of stream — changes nothing else:
+in a `poll` in which no message is forwarded, the client half and the server half are polled exactly
+as if the substreams did not exist, and every other substream follows its own answers. -/
+theorem stream_end_costs_nothing_else (h : CH) (env : Env)
+    (hnone : (Inbound.selectPoll h.streams env.inbound env.order).2 = none) :
+    (poll h env).1.client = (ClientHandler.poll ClientHandler.pollFuel h.client env.client []).1 ∧
+    ((ClientHandler.poll ClientHandler.pollFuel h.client env.client []).2.1 = .pending →
+      (poll h env).1.server = (ServerSink.poll h.server env.server).1) ∧
+    (poll h env).1.streams = (Inbound.selectPoll h.streams env.inbound env.order).1 :=
+  Proofs.ConnHandler.stream_end_costs_nothing_else h env hnone
+
+/-- Inputs for one part leave the other parts untouched. -/
+theorem routing (h : CH) :
+    (∀ w, (step h (.sendWantlist w)).1.server = h.server ∧ (step h (.sendWantlist w)).1.streams = h.streams) ∧
+    (∀ bs, (step h (.queueBlocks bs)).1.client = h.client ∧ (step h (.queueBlocks bs)).1.streams = h.streams) ∧
+    (∀ sid, (step h (.inbound sid)).1.client = h.client ∧ (step h (.inbound sid)).1.server = h.server) ∧
+    (∀ sid, (step h (.outbound .client sid)).1.server = h.server ∧ (step h (.outbound .server sid)).1.client = h.client) ∧
+    ((step h (.dialError .server)).1.client = h.client ∧ (step h (.dialError .client)).1.server = h.server) :=
+  Proofs.ConnHandler.routing h
+
+/-- A message forwarded to the behaviour comes from one of the connection's own substreams and is
+what that substream's `poll_next` returned. -/
+theorem incoming_origin (h : CH) (hnd : Proofs.Inbound.Nodup h.streams) (env : Env)
+    (hord : env.order.Nodup) (sid m : Nat) (hm : Out.ev (.incoming sid m) ∈ (poll h env).2) :
+    sid ∈ env.order ∧ ∃ s, h.streams.lookup sid = some s ∧
+      (Inbound.poll s (env.inbound sid).reads (env.inbound sid).procs).2 = .item m :=
+  Proofs.ConnHandler.incoming_origin h hnd env hord sid m hm
+
+
+/-- No inbound substream and no server-side event can close the connection: only the client
+half's own halt does. -/
+theorem keepAlive_only_client (h : CH) (i : In) (hk : keepAlive h = true)
+    (hnot : keepAlive (step h i).1 = false) :
+    ∃ env, i = .poll env ∧ (Inbound.selectPoll h.streams env.inbound env.order).2 = none ∧
+      (ClientHandler.poll ClientHandler.pollFuel h.client env.client []).1.halted = true :=
+  Proofs.ConnHandler.keepAlive_only_client h i hk hnot
+
+end
+
+/-- Non-vacuity: two substreams, the first receives a frame that cannot be decoded, the second a
+good message: the first is dropped, the second forwards its message. -/
+example : Inbound.selectPoll [(0, {}), (1, {})]
+    (fun sid => if sid = 0 then { reads := [.err] } else { reads := [.msg 7], procs := [.fwd] }) [0, 1] =
+    ([(1, {})], some (1, 7)) := by decide
 
 end Beetswap.Props.C16
